@@ -317,6 +317,22 @@ type c06S struct {
 	faultBetween bool
 	indexFills   int
 	racing       int
+	// the primary keys the database hands out are pkBase + i: large numbers (>= 10^6, above 2^53) survive the
+	// trip through the cached index entry only if they are decoded as numbers of full precision
+	pkBase int64
+}
+
+var c06PkBases = []int64{0, 1_000_000, 1<<53 + 1, 1_700_000_000_000_000_000}
+
+func (s *c06S) ext(id int64) int64 { return id + s.pkBase }
+
+// unext: the row id a primary key value stands for, -1 if it is not one the database handed out
+func (s *c06S) unext(primary any) int64 {
+	v, err := strconv.ParseInt(fmt.Sprint(primary), 10, 64)
+	if err != nil || v-s.pkBase < 0 || v-s.pkBase >= c06IDs {
+		return -1
+	}
+	return v - s.pkBase
 }
 
 func c06NewS(t *rapid.T, st *verifkit.Stats, tag string) *c06S {
@@ -367,7 +383,7 @@ func (s *c06S) decode(key, raw string) (string, error) {
 		if err != nil {
 			return "", fmt.Errorf("index entry %q is not a primary key", raw)
 		}
-		return c06Ref(id), nil
+		return c06Ref(id - s.pkBase), nil
 	}
 	var r c06Rec
 	if err := json.Unmarshal([]byte(raw), &r); err != nil {
@@ -713,8 +729,8 @@ func (s *c06S) sameConn(conn sqlx.SqlConn) {
 }
 
 func (s *c06S) keyer(primary any) string {
-	id, err := strconv.ParseInt(fmt.Sprint(primary), 10, 64)
-	if err != nil || id < 0 || id >= c06IDs {
+	id := s.unext(primary)
+	if id < 0 {
 		return s.w.Prefix + "p?" + fmt.Sprint(primary)
 	}
 	return s.pk[id]
@@ -747,12 +763,11 @@ func (s *c06S) queryIndex(x int64, ctx, dbFail bool, fault string, faultKey stri
 				if err := conn.QueryRowCtx(ctx, v, "byidx", x); err != nil {
 					return nil, err
 				}
-				return v.(*c06Rec).ID, nil
+				return s.ext(v.(*c06Rec).ID), nil
 			},
 			func(ctx context.Context, conn sqlx.SqlConn, v, primary any) error {
 				s.sameConn(conn)
-				id, _ := strconv.ParseInt(fmt.Sprint(primary), 10, 64)
-				return conn.QueryRowCtx(ctx, v, "byid", id)
+				return conn.QueryRowCtx(ctx, v, "byid", s.unext(primary))
 			})
 	} else {
 		err = s.cc.QueryRowIndex(&out, ikey, s.keyer,
@@ -761,12 +776,11 @@ func (s *c06S) queryIndex(x int64, ctx, dbFail bool, fault string, faultKey stri
 				if err := conn.QueryRow(v, "byidx", x); err != nil {
 					return nil, err
 				}
-				return v.(*c06Rec).ID, nil
+				return s.ext(v.(*c06Rec).ID), nil
 			},
 			func(conn sqlx.SqlConn, v, primary any) error {
 				s.sameConn(conn)
-				id, _ := strconv.ParseInt(fmt.Sprint(primary), 10, 64)
-				return conn.QueryRow(v, "byid", id)
+				return conn.QueryRow(v, "byid", s.unext(primary))
 			})
 	}
 	tr := s.disarm(name, err)
@@ -1072,6 +1086,7 @@ func TestVerifC06SqlcMachine(t *testing.T) {
 	rapid.Check(t, func(t *rapid.T) {
 		st.Eval()
 		s := c06NewS(t, st, "s")
+		s.pkBase = rapid.SampledFrom(c06PkBases).Draw(t, "pkBase")
 		w := s.w
 		st.Class("ctor:" + []string{"NewNodeConn", "NewConn", "NewConnWithCache"}[s.conf.ctor])
 		st.Class(fmt.Sprintf("nodes:%d", len(s.conf.nodes)))
@@ -1090,7 +1105,9 @@ func TestVerifC06SqlcMachine(t *testing.T) {
 					if r, ok := s.byIdx(x); ok {
 						fkey = s.pk[r.ID]
 					} else if e := w.Cached(s.ik[x]); e.Present && !e.Placeholder {
-						fkey = s.keyer(strings.TrimPrefix(e.Val, "->p"))
+						if id, err := strconv.ParseInt(strings.TrimPrefix(e.Val, "->p"), 10, 64); err == nil {
+							fkey = s.keyer(s.ext(id))
+						}
 					}
 				}
 				s.queryIndex(x, rapid.Bool().Draw(t, "ctx"), rapid.IntRange(0, 7).Draw(t, "dbFail") == 0, fault, fkey)
@@ -1207,6 +1224,10 @@ func TestVerifC06SqlcConcurrent(t *testing.T) {
 	rapid.Check(t, func(t *rapid.T) {
 		st.Eval()
 		s := c06NewS(t, st, "d")
+		s.pkBase = rapid.SampledFrom(c06PkBases).Draw(t, "pkBase")
+		if s.pkBase > 0 {
+			st.Class("primary-keys>=10^6")
+		}
 		w := s.w
 		env := w.Env
 		g := rapid.IntRange(2, 16).Draw(t, "G")
@@ -1316,11 +1337,10 @@ func TestVerifC06SqlcConcurrent(t *testing.T) {
 							if err := conn.QueryRow(v, "byidx", x); err != nil {
 								return nil, err
 							}
-							return v.(*c06Rec).ID, nil
+							return s.ext(v.(*c06Rec).ID), nil
 						},
 						func(conn sqlx.SqlConn, v, primary any) error {
-							pid, _ := strconv.ParseInt(fmt.Sprint(primary), 10, 64)
-							return conn.QueryRow(v, "byid", pid)
+							return conn.QueryRow(v, "byid", s.unext(primary))
 						})
 				} else {
 					errs[i] = cc.QueryRow(&outs[i], key, func(conn sqlx.SqlConn, v any) error { return conn.QueryRow(v, "byid", id) })
